@@ -46,7 +46,8 @@ for _p in ["C%02d" % i for i in range(1, 20)]:
     prop(_p)
 PROPS["C02"]["driver"] = "c01"; PROPS["C03"]["driver"] = "c01"
 PROPS["C02"]["harness_v"] = "Harness/C01H.vo"; PROPS["C03"]["harness_v"] = "Harness/C01H.vo"
-PROPS["C07"]["variants"] = [("bin", "verif binary_log")]   # the same driver built a second time with the binary encoder
+PROPS["C07"]["variants"] = [("bin", "verif binary_log")]
+PROPS["C08"]["variants"] = [("json", "verif")]            # main run: binary build; second run: JSON build of the same driver   # the same driver built a second time with the binary encoder
 PROPS["C05"]["race"] = True
 PROPS["C06"]["race"] = True
 PROPS["C15"]["race"] = True
@@ -333,6 +334,18 @@ def build_coq(pid, log, jobs=16):
     return res
 
 
+def run_coqchk(pid, log):
+    """independent re-check of the compiled property file and everything it depends on (thorough tier)"""
+    rc, out, dt = sh(["coqchk", "-silent", "-o", "-Q", ".", "Verif", f"Verif.Properties.{pid}"], cwd=COQ, timeout=3600)
+    log.append(f"== coqchk Properties/{pid} ({dt:.0f}s)\n" + out[-3000:])
+    m = re.search(r"\* Axioms:(.*?)\n\s*\n\* Constants/Inductives relying on type-in-type:(.*?)\n\s*\n\* Constants/Inductives relying on unsafe \(co\)fixpoints:(.*?)\n\s*\n\* Inductives whose positivity is assumed:(.*?)\n", out + "\n", re.S)
+    if rc != 0 or not m:
+        return dict(ok=False, seconds=round(dt), summary=out[-600:])
+    parts = [" ".join(x.split()) for x in m.groups()]
+    ok = all(x == "<none>" for x in parts)
+    return dict(ok=ok, seconds=round(dt), axioms=parts[0], type_in_type=parts[1], unsafe_fixpoints=parts[2], assumed_positivity=parts[3])
+
+
 def eval_shard(args):
     work, name = args
     rc, out, dt = sh(f"ulimit -s unlimited; coqc -Q {COQ} Verif {name}.v", cwd=work, timeout=3000, shell=True)
@@ -385,6 +398,16 @@ def main():
     if pid not in PROPS:
         print(f"unknown property {pid}", file=sys.stderr)
         return 2
+    if a.replay:
+        # a replay file records the seed and tier of the run that produced it: every case of a run derives from that
+        # one seed, so re-running with it regenerates the failing case (drivers that can, also re-run just that case)
+        try:
+            rj = json.load(open(a.replay))
+            seed = int(rj.get("seed", seed))
+            tier = rj.get("tier", tier) if rj.get("tier") in ("quick", "thorough") else tier
+            print(f"replaying {a.replay}: property={rj.get('property')} seed={seed} tier={tier} key={rj.get('key')}")
+        except Exception as e:
+            print(f"cannot read replay file: {e}", file=sys.stderr)
     t0 = time.time()
     cfg = PROPS[pid]
     work = os.path.join(WORK, pid)
@@ -403,6 +426,11 @@ def main():
         if not coq["ok"]:
             f = coq["failed"]
             broken.append(f"coq {f['stage']}: {', '.join(f['where'])}")
+        chk = None
+        if coq["ok"] and tier == "thorough" and os.environ.get("VERIF_NO_COQCHK") != "1":
+            chk = run_coqchk(pid, log)
+            if not chk["ok"]:
+                broken.append("coqchk: " + json.dumps(chk)[:600])
     if True:
         # 3. harness
         drv_res = None
@@ -535,6 +563,7 @@ def main():
         theorems=thms,
         assumptions={k: (v if v else "Closed under the global context") for k, v in coq["assumptions"].items()},
         gen=gen_msg,
+        coqchk=chk,
         evaluations=(drv_res or {}).get("evaluations", 0),
         distinct_nontrivial=(drv_res or {}).get("distinct_nontrivial", 0),
         rule=(drv_res or {}).get("rule", ""),
